@@ -1,10 +1,21 @@
-(* C18 - the rational instance of the signature, used only to evaluate the
+(* C18 - the exact instance of the signature, used only to evaluate the
    generated definitions and the textbook specification on observed values
-   (vm_compute).  Square roots are exact on squares of rationals and 0
-   elsewhere; cos, sin and atan2 are dummies: the harness never evaluates
-   them here (methods that need them are tested over floats instead).
+   (vm_compute).
+
+   Numbers are rationals.  Square roots are exact on squares of rationals
+   (the harness only evaluates them there).  Angles are TOKENS: the harness
+   runs the real code with a scripted double of the `math` module
+   (harness/math_oracle.py, class Shim) in which an angle is represented by
+   t = tan(angle / 2), so that cos, sin, atan2 and the addition of angles are
+   exact rational operations:
+       cos = (1 - t^2) / (1 + t^2),  sin = 2 t / (1 + t^2),
+       atan2 y x = the angle with t = y / (|(x,y)| + x),
+       angle + angle: t = (t1 + t2) / (1 - t1 t2).
+   [Deg t] is the same angle given in degrees (radians (Deg t) = Ang t);
+   fov * pi / 360 for fov = Deg t is the half angle, whose tangent is t.
+   Anything else is [Bad], which is equal to nothing.
    No proofs in this file. *)
-From Coq Require Import ZArith QArith.
+From Coq Require Import ZArith QArith Qround.
 From Desper Require Import Math.Sig.
 
 Definition Zsqrt_exact (z : Z) : option Z :=
@@ -19,9 +30,69 @@ Definition Qsqrt (q : Q) : Q :=
 
 Definition Qltb (x y : Q) : bool := negb (Qle_bool y x).
 
-#[export] Instance Qops : ops Q := {|
-  gofZ := inject_Z;
-  gadd := Qplus; gmul := Qmult; gsub := Qminus; gdiv := Qdiv; gopp := Qopp;
-  gsqrt := Qsqrt;
-  gcos := fun _ => 0; gsin := fun _ => 0; gatan2 := fun _ _ => 0;
-  gltb := Qltb; geqb := Qeq_bool |}.
+(* round half to even to n decimal digits (Fraction.__round__) *)
+Definition Qround_int (y : Q) : Z :=
+  let f := Qfloor y in
+  let r := y - inject_Z f in
+  if Qltb r (1 # 2) then f
+  else if Qltb (1 # 2) r then (f + 1)%Z
+  else if Z.even f then f else (f + 1)%Z.
+Definition Qround (q : Q) (n : Z) : Q :=
+  Qred (inject_Z (Qround_int (q * Qpower (10 # 1) n)) / Qpower (10 # 1) n).
+
+Inductive qa :=
+| Num (x : Q)
+| Ang (t : Q)        (* an angle, t = tan (angle / 2) *)
+| Deg (t : Q)        (* the same angle, given in degrees *)
+| PiC                (* math.pi *)
+| DegPi (t : Q)      (* Deg t * pi *)
+| Half (t : Q)       (* Deg t * pi / 360: half the angle, in radians *)
+| Bad.
+
+Definition num2 (f : Q -> Q -> Q) (a b : qa) : qa :=
+  match a, b with Num x, Num y => Num (f x y) | _, _ => Bad end.
+
+Definition qa_add (a b : qa) : qa :=
+  match a, b with
+  | Num x, Num y => Num (x + y)
+  | Ang s, Ang t => if Qeq_bool (1 - s * t) 0 then Bad else Ang (Qred ((s + t) / (1 - s * t)))
+  | _, _ => Bad
+  end.
+Definition qa_mul (a b : qa) : qa :=
+  match a, b with
+  | Num x, Num y => Num (x * y)
+  | Deg t, PiC => DegPi t
+  | _, _ => Bad
+  end.
+Definition qa_div (a b : qa) : qa :=
+  match a, b with
+  | Num x, Num y => Num (x / y)
+  | DegPi t, Num y => if Qeq_bool y (360 # 1) then Half t else Bad
+  | _, _ => Bad
+  end.
+Definition qa_atan2 (a b : qa) : qa :=
+  match a, b with
+  | Num y, Num x =>
+      let r := Qsqrt (x * x + y * y) in
+      if Qeq_bool (r + x) 0 then Bad else Ang (Qred (y / (r + x)))
+  | _, _ => Bad
+  end.
+
+#[export] Instance QAops : ops qa := {|
+  gofZ := fun z => Num (inject_Z z);
+  gadd := qa_add; gmul := qa_mul; gsub := num2 Qminus; gdiv := qa_div;
+  gopp := fun a => match a with Num x => Num (- x) | _ => Bad end;
+  gsqrt := fun a => match a with Num x => Num (Qsqrt x) | _ => Bad end;
+  gcos := fun a => match a with Ang t => Num ((1 - t * t) / (1 + t * t)) | _ => Bad end;
+  gsin := fun a => match a with Ang t => Num ((2 * t) / (1 + t * t)) | _ => Bad end;
+  gatan2 := qa_atan2;
+  gtan := fun a => match a with Half t => Num t | _ => Bad end;
+  gpi := PiC;
+  gradians := fun a => match a with Deg t => Ang t | _ => Bad end;
+  ground := fun a n => match a with Num x => Num (Qround x n) | _ => Bad end;
+  gltb := fun a b => match a, b with Num x, Num y => Qltb x y | _, _ => false end;
+  geqb := fun a b => match a, b with
+                     | Num x, Num y => Qeq_bool x y
+                     | Ang s, Ang t => Qeq_bool s t
+                     | _, _ => false
+                     end |}.
